@@ -200,6 +200,17 @@ func checkSyntaxInfixParts(node *InfixExpression) Object {
 		return newError(syntaxErrorTemplate, expr.String())
 	}
 
+	// a document path is an operand as well: it cannot be an operand of AND / OR
+	if operatorIsKeyword {
+		if _, ok := node.Left.(*IndexExpression); ok {
+			return newError(syntaxErrorTemplate, node.Left.String())
+		}
+
+		if _, ok := node.Right.(*IndexExpression); ok {
+			return newError(syntaxErrorTemplate, node.Right.String())
+		}
+	}
+
 	// the operands of a comparator are operands, not conditions: "a = b <= c" is not a sentence
 	if isComparator(node.Operator) {
 		if isConditionExpression(node.Left) {
